@@ -9,7 +9,7 @@ tty settings and signal handlers restored."  What is proved of the real bodies:
   signal_restore    (entered in the state signal_init -- and possibly a suspend -- left) puts back EXACTLY what was
                     installed before: the very handler object, SIG_DFL / SIG_IGN, and SIG_DFL where Python reported None
                     (a handler not installed from Python cannot be put back: signal.signal rejects None).
-                    FAILS-ON-TREE for an application handler that is callable but falsy: see `_restore_claims`.
+                    (failed on the tree until fix: commit 73c4c17) for an application handler that is callable but falsy: see `_restore_claims`.
   _sigtstp_handler  suspend: the screen is stopped first (terminal in its initial modes, the application's SIGTSTP /
                     SIGWINCH handling back in place -- contracts of BaseScreen.stop / Screen._stop), SIGCONT is hooked so
                     that a resume reaches this screen, then SIGTSTP is sent once more to this very process, where the
@@ -249,7 +249,7 @@ def _restore_claims(old, s):
         truthy = orig[sig].meta["truth_var"] if isinstance(orig[sig], V.SOpaque) else True
         yield f"exactly-what-was-installed-before-is-back/{sig.name}", implies(truthy, back)
         if isinstance(orig[sig], V.SOpaque):
-            # FAILS-ON-TREE: an application handler that is callable but falsy -- class Event: __call__, __len__ -> number
+            # (failed on the tree until fix: commit 73c4c17) an application handler that is callable but falsy -- class Event: __call__, __len__ -> number
             # of subscribers (0) -- installed for SIGWINCH / SIGTSTP (or SIGCONT, after a suspend) before screen.start():
             # after screen.stop() signal.getsignal(...) is SIG_DFL, not the handler (`prev or signal.SIG_DFL` tests
             # truth, not `is None`).  Replayed on /repo: signal.signal(SIGWINCH, Event()); scr.start(); scr.stop();
